@@ -35,7 +35,7 @@ COMPONENTS = {"real": ["pel.peltool.peltool.main() and parsePEL, pel.datastream.
 ASSUMPTIONS = ["every byte of a generated PEL is covered by a declared length, so no proper prefix is a complete PEL",
                "step budget 2e6 + 4000*len(input) monitored events (function starts + jumps in repository code); normal decodes use < 5e4",
                "faults during fd.read() itself (EIO mid-read) are out of scope"]
-PROBES = ["big_padded_payload_plans", "prefix_in_header", "prefix_on_section_boundary", "flip_in_length_field", "outcome:cli:doc", "outcome:cli:error0",
+PROBES = ["decoy_neighbour", "big_padded_payload_plans", "prefix_in_header", "prefix_on_section_boundary", "flip_in_length_field", "outcome:cli:doc", "outcome:cli:error0",
           "outcome:cli:exit1", "garbage", "double"]
 
 BUDGET_BASE, BUDGET_PER_BYTE = 2_000_000, 4000
@@ -111,7 +111,11 @@ def gen_plan(rng, tier, run):
             "stdout_encoding": rng.choice(["utf-8", "utf-8", "ascii", "latin-1"]),
             # one plan in 25: a PEL with a ~64 kB NUL/blank padded built-in text or JSON section (worst case for
             # anything super-linear in the payload), few faults
-            "big": rng.random() < 0.04}
+            "big": rng.random() < 0.04,
+            # directory modes: a healthy PEL stored beside the damaged file (sorted before or after it)
+            "decoy": rng.choice([None, None, "0decoy", "zdecoy"]),
+            # -f may be combined with --clean (the harness restores the file before every execution)
+            "clean": rng.random() < 0.25}
     if plan["big"]:
         pad = rng.choice([b"\x00", b" ", b"\x00 ", b"\n"])
         body = rng.choice([b'{"k": "v"}', b"line one\nline two"])
@@ -251,6 +255,14 @@ def execute(plan):
             max_steps = steps.count
             max_cpu = 0.0
             gname = common.bmc_name(r)
+            decoy_out = {}
+            if plan.get("decoy") and plan.get("cli") in ("-a", "-l", "-n"):
+                import random as _random
+                dr = pelgen.gen_pel(_random.Random(plan["fseed"] + 7), eid=r["eid"] ^ 0x00010000, want_class="serviceable", max_sections=2)
+                w.put("G/" + plan["decoy"], pelgen.build(dr))
+                ref_d = w.run(["-p", "@/G", plan["cli"]] + plan["opts"], stdout_encoding=plan.get("stdout_encoding", "utf-8"))
+                decoy_out = {"stdout": ref_d.stdout}
+                bump("decoy_neighbour")
             for f in faults:
                 bad = apply(data, f)
                 if bad == data:
@@ -263,7 +275,7 @@ def execute(plan):
                 steps.arm(len(bad))
                 cli = plan.get("cli", "-f")
                 if cli == "-f":
-                    argv = ["-f", "@/F/pel"] + plan["opts"]
+                    argv = ["-f", "@/F/pel"] + plan["opts"] + (["-c"] if plan.get("clean") else [])
                 else:
                     # the damaged file is the only file of a PEL directory, stored under its BMC-style name
                     w.put("G/" + gname, bad)
@@ -303,7 +315,10 @@ def execute(plan):
                     elif hexmode and cli != "-n":
                         blocks = common.split_hex_blocks(res.stdout)
                         produced_doc = True
-                        if blocks is None or len(blocks) != 1 or blocks[0] != bad:
+                        if decoy_out:
+                            if blocks is None or any(b is None for b in blocks):
+                                vio.append(V("stdout-malformed", "peltool %s -x on %s: stdout is not a sequence of dumps" % (cli, fdesc), f))
+                        elif blocks is None or len(blocks) != 1 or blocks[0] != bad:
                             vio.append(V("stdout-malformed", "peltool -f -x on %s: stdout is not the dump of the input" % fdesc, f))
                     else:
                         ok, j = common.parse_json_stream(res.stdout)
@@ -323,6 +338,11 @@ def execute(plan):
                     is_prefix_cli = False
                 else:
                     is_prefix_cli = is_prefix
+                if decoy_out:
+                    produced_doc = False
+                    if is_prefix_cli and not res.exc and res.stdout != decoy_out["stdout"]:
+                        vio.append(V("prefix-decoded", "peltool %s: adding a %d-byte proper prefix of a %d-byte PEL to a directory holding one healthy PEL changed stdout (-O=%s): %s" % (
+                            cli, len(bad), len(data), opt == "O1", res.stdout[:150].replace("\n", " ")), f))
                 if is_prefix_cli and produced_doc:
                     vio.append(V("prefix-decoded", "peltool -f decoded a %d-byte proper prefix of a %d-byte PEL (exit %r, -O=%s): %s" % (
                         len(bad), len(data), res.exit, opt == "O1", res.stdout[:150].replace("\n", " ")), f))
